@@ -164,6 +164,19 @@ impl VxPartitionPoint for Vec<usize> {
     { unimplemented!() }
 }
 
+// ------------------------------------------------------------------ `len` of a chain (item chain_len)
+/// Rc<ManagedXValue> of a part of a chain: a sequence with a length (None: endless)
+pub struct PartVal { pub l: Ghost<Option<usize>> }
+pub struct PartSeq { pub l: Ghost<Option<usize>> }
+impl PartSeq {
+    #[verifier::external_body]
+    pub fn len(&self) -> (r: Option<usize>) ensures r == self.l@ { unimplemented!() }
+}
+/// the downcast of a part (model macro: C01 -- the parts of a chain are sequences)
+#[verifier::external_body]
+pub fn vx_part(v: &PartVal) -> (r: PartSeq) ensures r.l@ == v.l@ { unimplemented!() }
+macro_rules! to_native { ($x:expr, $t:ty) => { vx_part($x) } }
+
 // @@EXTRACTED@@
 
 } // verus!
